@@ -1109,7 +1109,9 @@ async fn load_targets(
             path,
             url: metadata_base_url.clone(),
         })?;
-    let (max_targets_size, specifier) = match targets_meta.length {
+    // The length listed in snapshot.json bounds targets.json only. Delegated roles (loaded further
+    // down) are bounded by their own listed length or by `max_targets_size`.
+    let (targets_size_limit, specifier) = match targets_meta.length {
         Some(length) => (length, "snapshot.json"),
         None => (max_targets_size, "max_targets_size parameter"),
     };
@@ -1117,13 +1119,19 @@ async fn load_targets(
         fetch_sha256(
             transport,
             targets_url.clone(),
-            max_targets_size,
+            targets_size_limit,
             specifier,
             &hashes.sha256,
         )
         .await?
     } else {
-        fetch_max_size(transport, targets_url.clone(), max_targets_size, specifier).await?
+        fetch_max_size(
+            transport,
+            targets_url.clone(),
+            targets_size_limit,
+            specifier,
+        )
+        .await?
     };
     let data = stream
         .into_vec()
@@ -1250,10 +1258,13 @@ async fn load_delegations(
                 path: path.clone(),
                 url: metadata_base_url.clone(),
             })?;
-        let specifier = "max_targets_size parameter";
+        let (role_size_limit, specifier) = match role_meta.length {
+            Some(length) => (length, "snapshot.json"),
+            None => (max_targets_size, "max_targets_size parameter"),
+        };
         // load the role json file
         let stream =
-            fetch_max_size(transport, role_url.clone(), max_targets_size, specifier).await?;
+            fetch_max_size(transport, role_url.clone(), role_size_limit, specifier).await?;
         let data = stream
             .into_vec()
             .await
